@@ -9,7 +9,8 @@ together with what it was observed to do for each of them.
 
 The reader (`Scan`) remembers only what the properties talk about: is a transport attached, has the router welcomed
 this side (between a WELCOME that `onWelcome` accepted and the GOODBYE / end of the connection — the router's view of
-"the session is established"), which lifecycle callbacks / observers fired on this transport
+"the session is established"), whether the session / the attempt to join is over (`onLeave` has run and no HELLO was sent
+since), which lifecycle callbacks / observers fired on this transport
 connection, was a GOODBYE sent in this session, which futures were handed to the user / completed, which invocations
 were accepted and are still owed their terminal reply. It knows nothing of tables, queues or scheduling; the only thing
 it is told about the framework is *when the loop is idle* (`quiet`): after every event on Twisted, after `pump` on
@@ -56,6 +57,8 @@ deriving DecidableEq, Repr
 structure Scan where
   up : Bool := false                 -- between `open` and `closed`
   welcomed : Bool := false           -- between a WELCOME `onWelcome` accepted and GOODBYE / the end of the connection
+  ended : Bool := false              -- `onLeave` has run on this connection and this side has not sent HELLO again since:
+                                     -- the session (or the attempt to join) is over, the router has nothing more to say
   rank : Nat := 0                    -- last lifecycle callback of this connection: 1 connect, 2 join, 3 leave, 4 disconnect
   orank : Nat := 0                   -- last observer notification: 1 connect, 2 join, 3 ready, 4 leave, 5 disconnect
   owedLeave : Nat := 0               -- ends of a session / aborted joins not yet followed by `onLeave`
@@ -85,6 +88,7 @@ def scanOut (σ : Scan) : SOut → Scan × List Viol
     let v1 := if r ≤ σ.rank then [Viol.hookOrder h] else []
     let σ := { σ with rank := max r σ.rank }
     if h = .onLeave then
+      let σ := { σ with ended := true }
       if σ.owedLeave = 0 then (σ, v1 ++ [.leaveUnexpected])
       else ({ σ with owedLeave := σ.owedLeave - 1 }, v1)
     else (σ, v1)
@@ -95,6 +99,7 @@ def scanOut (σ : Scan) : SOut → Scan × List Viol
     if e = .join then ({ σ with gb := false }, v) else (σ, v)
   | .send m =>
     match m.typ with
+    | .hello => ({ σ with ended := false }, [])          -- `join()`: a new attempt
     | .goodbye => ({ σ with gb := true }, if σ.gb then [.goodbyeTwice] else [])
     | .yield_ =>
       if isProgressive m then
@@ -134,8 +139,10 @@ def visible : SOut → Bool
   | .lost _ | .later _ => false
   | _ => true
 
-def isIllegal (welcomed : Bool) : InMsg → Bool
-  | .welcome _ | .abort | .challenge => welcomed
+/-- `welcomed`: the session is established; `ended`: the session or the attempt to join is over (`onLeave` has run) and
+no new HELLO was sent — from then on nothing the router sends is legal, a handshake message least of all -/
+def isIllegal (welcomed ended : Bool) : InMsg → Bool
+  | .welcome _ | .abort | .challenge => welcomed || ended
   | .other => true          -- HELLO, AUTHENTICATE, … are never legal for a client session
   | _ => !welcomed
 
@@ -170,10 +177,10 @@ def stepCheck (mode : Sched) (σ : Scan) (e : SEv) (outs : List SOut) : Scan × 
   -- what the event obliges, before looking at the observations
   let pre : Scan × List Viol :=
     match e with
-    | .open_ _ => ({ σ with up := true, welcomed := false, rank := 0, orank := 0, owedLeave := 0 }, [])
+    | .open_ _ => ({ σ with up := true, welcomed := false, ended := false, rank := 0, orank := 0, owedLeave := 0 }, [])
     | .closed _ => ({ σ with owedLeave := σ.owedLeave + (if σ.welcomed then 1 else 0) }, [])
     | .msg m beh =>
-      if isIllegal σ.welcomed m then (σ, if outs = [.raise_ .protocolError] then [] else [.gate]) else
+      if isIllegal σ.welcomed σ.ended m then (σ, if outs = [.raise_ .protocolError] then [] else [.gate]) else
       match m with
       | .welcome _ =>
         let a := beh.headD {}
